@@ -16,7 +16,7 @@ PT = "routee-compass-powertrain/src/routee/"
 CORE = "routee-compass-core/src/"
 U = CORE + "model/unit/"
 OBLIGATIONS = ["update_soc_percent", "as_soc_percent", "soc_from_battery_and_delta", "predict", "get_phev_energy", "consume_energy", "best_case_energy",
-               "create_energy", "create", "lemma_soc_stays_in_range", "lemma_soc_unclamped_delta"]
+               "create_energy", "create", "best_case_energy_state", "lemma_soc_stays_in_range", "lemma_soc_unclamped_delta"]
 MUST_FAIL = ["vacuity_probe"]
 
 SHIMS = """
@@ -291,6 +291,24 @@ def build(x):
                 &&& forall|j: int| 0 <= j < old(state)@.len() && j != ie && j != is ==> #[trigger] final(state)@[j] == old(state)@[j]
             }),""")
     bev.append(cn)
+    bs = x.fn(PT + "vehicle/default/bev.rs", "impl VehicleType for BEV :: fn best_case_energy_state")
+    bs.rewrite(r"\A(\s*)fn ", r"\1pub fn ", 0, 1, rule="R3")
+    bs.rewrite(r"&BEV::ENERGY_FEATURE_NAME\.into\(\)", "&verif_string(BEV::ENERGY_FEATURE_NAME)", 1, 1, rule="R-into")
+    bs.name_return("r")
+    bs.add_spec("""        requires self.battery_capacity@ != 0real,
+                 sm_slot(state_model, BEV::ENERGY_FEATURE_NAME@) != sm_slot(state_model, BEV::SOC_FEATURE_NAME@),
+        ensures final(state)@.len() == old(state)@.len(),
+            r is Ok ==> ({
+                // C08: "the best-case energy used to order the search is the ideal rate times distance" -- in the units the state is kept in: the energy slot grows by that
+                // energy converted FROM THE MODEL'S energy unit to the slot's, the state of charge follows the same energy converted to the battery's unit
+                let e = self.prediction_model_record.ideal_energy_rate@ * conv_DistanceUnit(distance.1, eru_distance(self.prediction_model_record.energy_rate_unit), distance.0@);
+                let eu = eru_energy(self.prediction_model_record.energy_rate_unit);
+                let (ie, is) = (sm_slot(state_model, BEV::ENERGY_FEATURE_NAME@), sm_slot(state_model, BEV::SOC_FEATURE_NAME@));
+                &&& sv(final(state)@, ie) == sv(old(state)@, ie) + conv_EnergyUnit(eu, sm_energy_unit(state_model, BEV::ENERGY_FEATURE_NAME@), e)
+                &&& sv(final(state)@, is) == soc_next(sv(old(state)@, is), conv_EnergyUnit(eu, self.battery_energy_unit, e), self.battery_capacity@)
+                &&& forall|j: int| 0 <= j < old(state)@.len() && j != ie && j != is ==> #[trigger] final(state)@[j] == old(state)@[j]
+            }),""")
+    bev.append(bs)
     parts.append("impl BEV {\n    pub const ENERGY_FEATURE_NAME: &'static str = \"energy_electric\";\n    pub const SOC_FEATURE_NAME: &'static str = \"battery_state\";\n"
                  + "\n".join(f.text for f in bev) + "\n}\n")
     # ---- ICE ----
@@ -317,6 +335,19 @@ def build(x):
                 &&& forall|j: int| 0 <= j < old(state)@.len() && j != ie ==> #[trigger] final(state)@[j] == old(state)@[j]
             }),""")
     ice.append(ic)
+    ibs = x.fn(PT + "vehicle/default/ice.rs", "impl VehicleType for ICE :: fn best_case_energy_state")
+    ibs.rewrite(r"\A(\s*)fn ", r"\1pub fn ", 0, 1, rule="R3")
+    ibs.rewrite(r"&ICE::ENERGY_FEATURE_NAME\.into\(\)", "&verif_string(ICE::ENERGY_FEATURE_NAME)", 1, 1, rule="R-into")
+    ibs.name_return("r")
+    ibs.add_spec("""        ensures final(state)@.len() == old(state)@.len(),
+            r is Ok ==> ({
+                let e = self.prediction_model_record.ideal_energy_rate@ * conv_DistanceUnit(distance.1, eru_distance(self.prediction_model_record.energy_rate_unit), distance.0@);
+                let eu = eru_energy(self.prediction_model_record.energy_rate_unit);
+                let ie = sm_slot(state_model, ICE::ENERGY_FEATURE_NAME@);
+                &&& sv(final(state)@, ie) == sv(old(state)@, ie) + conv_EnergyUnit(eu, sm_energy_unit(state_model, ICE::ENERGY_FEATURE_NAME@), e)
+                &&& forall|j: int| 0 <= j < old(state)@.len() && j != ie ==> #[trigger] final(state)@[j] == old(state)@[j]
+            }),""")
+    ice.append(ibs)
     parts.append("impl ICE {\n    pub const ENERGY_FEATURE_NAME: &'static str = \"energy_liquid\";\n" + "\n".join(f.text for f in ice) + "\n}\n")
     x.note("R3", "`impl VehicleType for BEV/PHEV` methods written as inherent pub fns; the two &'static str constants copied by value; Arc<..> removed")
     # ---- PHEV::consume_energy ----
@@ -344,8 +375,29 @@ def build(x):
                         && sv(final(state)@, is) == soc_next(soc0, conv_EnergyUnit(ue, self.battery_energy_unit, 0real), self.battery_capacity@))
                 &&& 0real <= sv(final(state)@, is) <= 100real
             }),""")
+    pb = x.fn(PT + "vehicle/default/phev.rs", "impl VehicleType for PHEV :: fn best_case_energy")
+    pb.rewrite(r"\A(\s*)fn ", r"\1pub fn ", 0, 1, rule="R3")
+    pb.name_return("r")
+    pb.add_spec("""        ensures r matches Ok(p) ==> p.1 == eru_energy(self.charge_depleting_model.energy_rate_unit)
+            // C08: best case of a plug-in hybrid = the ideal ELECTRIC rate x distance
+            && p.0@ == self.charge_depleting_model.ideal_energy_rate@ * conv_DistanceUnit(distance.1, eru_distance(self.charge_depleting_model.energy_rate_unit), distance.0@),""")
+    ps = x.fn(PT + "vehicle/default/phev.rs", "impl VehicleType for PHEV :: fn best_case_energy_state")
+    ps.rewrite(r"\A(\s*)fn ", r"\1pub fn ", 0, 1, rule="R3")
+    ps.rewrite(r"&PHEV::ELECTRIC_FEATURE_NAME\.into\(\)", "&verif_string(PHEV::ELECTRIC_FEATURE_NAME)", 1, 1, rule="R-into")
+    ps.name_return("r")
+    ps.add_spec("""        requires self.battery_capacity@ != 0real,
+                 sm_slot(state_model, PHEV::ELECTRIC_FEATURE_NAME@) != sm_slot(state_model, PHEV::SOC_FEATURE_NAME@),
+        ensures final(state)@.len() == old(state)@.len(),
+            r is Ok ==> ({
+                let e = self.charge_depleting_model.ideal_energy_rate@ * conv_DistanceUnit(distance.1, eru_distance(self.charge_depleting_model.energy_rate_unit), distance.0@);
+                let eu = eru_energy(self.charge_depleting_model.energy_rate_unit);
+                let (ie, is) = (sm_slot(state_model, PHEV::ELECTRIC_FEATURE_NAME@), sm_slot(state_model, PHEV::SOC_FEATURE_NAME@));
+                &&& sv(final(state)@, ie) == sv(old(state)@, ie) + conv_EnergyUnit(eu, sm_energy_unit(state_model, PHEV::ELECTRIC_FEATURE_NAME@), e)
+                &&& sv(final(state)@, is) == soc_next(sv(old(state)@, is), conv_EnergyUnit(eu, self.battery_energy_unit, e), self.battery_capacity@)
+                &&& forall|j: int| 0 <= j < old(state)@.len() && j != ie && j != is ==> #[trigger] final(state)@[j] == old(state)@[j]
+            }),""")
     parts.append("impl PHEV {\n    pub const LIQUID_FEATURE_NAME: &'static str = \"energy_liquid\";\n    pub const ELECTRIC_FEATURE_NAME: &'static str = \"energy_electric\";\n    pub const SOC_FEATURE_NAME: &'static str = \"battery_state\";\n"
-                 + pc.text + "\n}\n")
+                 + pc.text + "\n" + pb.text + "\n" + ps.text + "\n}\n")
     # the three constants must be the code's
     for cname, fname, val in [("ENERGY_FEATURE_NAME", "bev.rs", "energy_electric"), ("SOC_FEATURE_NAME", "bev.rs", "battery_state"),
                               ("LIQUID_FEATURE_NAME", "phev.rs", "energy_liquid"), ("ELECTRIC_FEATURE_NAME", "phev.rs", "energy_electric"), ("SOC_FEATURE_NAME", "phev.rs", "battery_state"), ("ENERGY_FEATURE_NAME", "ice.rs", "energy_liquid")]:
